@@ -3,6 +3,7 @@
 //   D <hexbytes>          parse the document in one piece with a fresh GKFparser + LocalNetwork
 //   S <hexbytes>          parse it split into two chunks at EVERY byte position (n+1 parses); reports whether
 //                         every split gives the same verdict (and line) as the unsplit parse
+//   E <hexbytes>          as D, and prints the network description (UTF-8, hex) after the state
 //   L <hexbytes>          line by line as gama-local reads its input (getline + "\n")
 // stdout, one line per request:
 //   ok <final state> | exc <line> <code> <hex text>        (S: "same <n>" or "differs <pos> <verdict>")
@@ -32,6 +33,7 @@
 
 using namespace GNU_gama::local;
 
+static bool want_description = false;
 static std::string verdict(const std::string& doc, long split, bool lines) {
   std::ostringstream o;
   LocalNetwork* net = new LocalNetwork;
@@ -52,6 +54,7 @@ static std::string verdict(const std::string& doc, long split, bool lines) {
       gkf.xml_parse(doc.c_str() + split, doc.size() - split, 1);
     }
     o << "ok " << gkf.state;
+    if (want_description) o << ' ' << bytes2hex(net->description);
   } catch (const GNU_gama::Exception::parser& e) {
     o << "exc " << e.line << ' ' << e.error_code << ' ' << bytes2hex(e.str);
   } catch (const GNU_gama::local::Exception& e) {
@@ -74,7 +77,8 @@ int main() {
     if (line.size() < 2) continue;
     char mode = line[0];
     std::string doc = hex2bytes(line.substr(2));
-    if (mode == 'D') std::cout << verdict(doc, -1, false) << "\n";
+    want_description = (mode == 'E');
+    if (mode == 'D' || mode == 'E') std::cout << verdict(doc, -1, false) << "\n";
     else if (mode == 'L') std::cout << verdict(doc, -1, true) << "\n";
     else if (mode == 'S') {
       std::string ref = verdict(doc, -1, false);
